@@ -137,7 +137,16 @@ def check(R, F):
             prep = paths.show_operand(fn, stc[0][3])
             ok = mode.startswith('TsigMode::Unsigned') and 'ExtendedRcode(17_u16)' in prep
             nones = [b for b, bl in enumerate(fn.blocks) for s2 in bl['stmts'] if s2['k'] == 'assign' and s2['lhs']['l'] == 0 and s2['rv']['k'] == 'agg' and s2['rv']['def'].endswith('Option::None')]
-            ok = ok and len(nones) == 1 and fn.dominates(stc[0][0], nones[0])
+            if nones:
+                ok = ok and len(nones) == 1 and fn.dominates(stc[0][0], nones[0])
+            else:
+                # the function hands the lookup's own Option back: the error is written exactly where that Option is
+                # known to be None, and nothing else is returned
+                from qv import origins
+                from qv.rulelib import failed_before
+                lv = origins.trace(fn, 0, [('down', 'Some')])
+                look = [lf[2] for lf in lv if lf[0] == 'call']
+                ok = ok and len(lv) == 1 and len(look) == 1 and failed_before(fn, stc[0][0], lambda t_: t_ is look[0])
         R.require(ok, 'tsig-table', name + '|' + what, fn.where(), '%s -> NOTAUTH, BADKEY(17), unsigned, None' % what, '%s does not answer NOTAUTH/BADKEY unsigned and return None' % what)
     R.floor('tsig-table', 10)
 
@@ -189,16 +198,22 @@ def check(R, F):
     fk = F.fn('server::find_tsig_key_or_write_error')
     get = calls_in(fk, 'HashMap::<K, V, S>::get') or [(b, t) for b, t in fk.calls() if re.search(r'HashMap::<[^>]*>::get$', callee_name(t))]
     flt = calls_in(fk, 'Option::<T>::filter')
-    ok = len(get) == 1 and len(flt) == 1 and 'key_name' in paths.show_operand(fk, get[0][1]['args'][1]) and 'HashMap::get' in paths.show_operand(fk, flt[0][1]['args'][0]).replace('<K, V, S>', '')
-    clo = F.closures_of(fk.gpath)
-    alg = False
-    for c in clo:
-        for b, t in c.calls():
-            if 'Algorithm as std::cmp::PartialEq' in callee_name(t):
-                alg = True
-    R.require(ok and alg, 'key-lookup', fk.gpath + '|name-and-algorithm', fk.where(), 'keys.get(key_name).filter(|(a, _)| *a == algorithm)', 'the key lookup does not require both the key name and the algorithm to match')
+    ok = len(get) == 1 and 'key_name' in paths.show_operand(fk, get[0][1]['args'][1])
     somes = [b for b, bl in enumerate(fk.blocks) for s2 in bl['stmts'] if s2['k'] == 'assign' and s2['lhs']['l'] == 0 and s2['rv']['k'] == 'agg' and s2['rv']['def'].endswith('Option::Some')]
-    R.require(len(somes) == 1 and any(re.match(r'^discr\(Option::filter\(.*\)\) in \[1\]$', x) for x in paths.dom_guards(fk, somes[0])), 'key-lookup', fk.gpath + '|some-only-when-filtered', fk.where(), 'a key is returned only when the filtered lookup succeeded', 'a key can be returned without the filtered lookup succeeding')
+    if flt:
+        # keys.get(name).filter(|(a, _)| *a == algorithm)
+        ok = ok and len(flt) == 1 and 'HashMap::get' in paths.show_operand(fk, flt[0][1]['args'][0]).replace('<K, V, S>', '')
+        alg = any('Algorithm as std::cmp::PartialEq' in callee_name(t) for c in F.closures_of(fk.gpath) for b, t in c.calls())
+        gated = len(somes) == 1 and any(re.match(r'^discr\(Option::filter\(.*\)\) in \[1\]$', x) for x in paths.dom_guards(fk, somes[0]))
+    else:
+        # the same test written inline (a match guard, an `if`): Some(key) only under `get(name)` being Some AND the
+        # stored algorithm equal to the requested one
+        eqs = [(b, t) for b, t in fk.calls() if 'Algorithm as std::cmp::PartialEq' in callee_name(t) or callee_name(t).endswith('PartialEq<&B> for &A>::eq')]
+        alg = len(eqs) == 1 and any('HashMap::get(' in paths.show_operand(fk, a).replace('<K, V, S>', '') for a in eqs[0][1]['args']) and any(re.match(r'^arg\d$', paths.show_operand(fk, a)) for a in eqs[0][1]['args'])
+        g = paths.dom_guards(fk, somes[0]) if len(somes) == 1 else []
+        gated = len(somes) == 1 and any(re.match(r'^discr\(HashMap(<K, V, S>)?::get\(.*\)\) in \[1\]$', x) for x in g) and any(re.search(r'::eq\(.*HashMap(<K, V, S>)?::get\(.*\) not in \[0\]$', x) for x in g)
+    R.require(ok and alg, 'key-lookup', fk.gpath + '|name-and-algorithm', fk.where(), 'the key is looked up by name and its algorithm compared with the requested one', 'the key lookup does not require both the key name and the algorithm to match')
+    R.require(gated, 'key-lookup', fk.gpath + '|some-only-when-filtered', fk.where(), 'a key is returned only when the lookup succeeded and the algorithm matched', 'a key can be returned without the name lookup having succeeded and the algorithm having matched')
 
     # ---- (e) class / TTL of the TSIG RR
     tf = F.fn("<message::tsig::ReadTsigRr<'a> as std::convert::TryFrom<message::reader::ReadRr<'a>>>::try_from")
